@@ -1,10 +1,8 @@
 (* C05 — the checker on the model, stage 4: the final sequential read.
-   (A) A finding about the ORACLE, not the code: Exec.final_data runs the final reader with a fuel of
-       400 rounds; on a case whose live chain has more than ~133 blocks the model's final read does
-       not finish, [final] = [] and clause S5 fails although done = true and known_class = None.
-       So  forall c, known_class c = None -> spec_ok c (run_case c) = true  is FALSE as stated; it
-       needs a size bound (the real driver's final data() has no such bound; the generator stays
-       far below it).
+   (A) Regression for a corrected ORACLE defect: Exec.final_data used to run the final reader with a
+       constant fuel of 400 rounds; on a case whose live chain has more than ~133 blocks the
+       model's final read gave up, [final] = [] and clause S5 failed although done = true and
+       known_class = None.  The fuel is now derived from the state (Exec.final_fuel).
    (B) For every case: what the final read returns (if it finishes; [] otherwise) has no duplicate
        identity, consists of values sitting in slots of the final heap, each slice being the
        published prefix of one block; hence clauses nodupb (concat final) and
@@ -16,24 +14,16 @@ Require Import MV.C05.ProofsSeq MV.C05.ProofsInv MV.C05.ProofsCor MV.C05.ProofsU
                MV.C05.ProofsSnap MV.C05.ProofsOrder MV.C05.ProofsSpec MV.C05.ProofsTrace1 MV.C05.ProofsTrace2 MV.C05.ProofsTrace3.
 Local Open Scope nat_scope.
 
-(* ---- (A) *)
+(* ---- (A) regression for the oracle defect: with the state-derived fuel the oversized case's final
+   read finishes and accounts for all 8700 pushes (with the old constant 400 it returned []) *)
 Definition oversized_case : case := ([[XMany 1 8700]], repeat 0%N (N.to_nat 35000)).
 
 Lemma oversized_case_facts :
   known_class oversized_case = None /\
   (let '(_, rss, done, final, _) := run_case oversized_case in
-   done = true /\ length (cleared_out rss ++ concat final) = 0 /\ length (all_pushes (progs_of oversized_case) 0) = N.to_nat 8700).
+   done = true /\ length final = N.to_nat 136 /\
+   length (cleared_out rss ++ concat final) = N.to_nat 8700 /\ length (all_pushes (progs_of oversized_case) 0) = N.to_nat 8700).
 Proof. vm_compute. repeat split; reflexivity. Qed.
-
-Theorem spec_ok_on_model_needs_size_bound :
-  exists c, known_class c = None /\ spec_ok c (run_case c) = false.
-Proof.
-  exists oversized_case. destruct oversized_case_facts as [Hk H]. split; [exact Hk|].
-  destruct (run_case oversized_case) as [[[[tr rss] done] final] anom] eqn:E. destruct H as (Hd & Hl & Hp).
-  destruct (spec_ok oversized_case (tr, rss, done, final, anom)) eqn:Es; [|reflexivity]. exfalso.
-  destruct (spec_ok_sound (progs_of oversized_case) tr rss done final anom Es) as (_ & _ & _ & _ & H5).
-  destruct (H5 Hd) as (_ & _ & Hlen). rewrite Hl, Hp in Hlen. discriminate.
-Qed.
 
 (* ---- (B) the fresh reader on a fixed shared state *)
 Section Final.
@@ -115,8 +105,8 @@ Section Final.
     NoDup (map vid (concat f)) /\ (forall x, In x (concat f) -> exists d i, slot (heap s0) d i = Some x) /\ Forall block_prefix f.
   Proof.
     unfold final_data.
-    pose proof (exec_rr_inv step site FinInv FinInv_step 400 _ (FinInv_init 4294967295%N)) as H.
-    destruct (exec_rr step site 400 (s0, [init_local 4294967295%N [CData]])) as [cf tr']. cbn [fst] in H.
+    pose proof (exec_rr_inv step site FinInv FinInv_step (final_fuel s0) _ (FinInv_init 4294967295%N)) as H.
+    destruct (exec_rr step site (final_fuel s0) (s0, [init_local 4294967295%N [CData]])) as [cf tr']. cbn [fst] in H.
     destruct H as (_ & l & Hls & Hok). rewrite Hls.
     assert (Triv : NoDup (map vid (concat (@nil (list val)))) /\ (forall x, In x (concat (@nil (list val))) -> exists d i, slot (heap s0) d i = Some x) /\ Forall block_prefix [])
       by (cbn; repeat split; [constructor|intros x []|constructor]).
